@@ -128,6 +128,8 @@ def it_of(ctx, v):
         return it_seq([tup(k, x) for k, x in v.items])
     if t is Agg and v.ty == 'Option':
         return it_seq([] if v.variant == 0 else [v.fields[0]])
+    if t is Agg and v.ty == 'Result':
+        return it_seq([v.fields[0]] if v.variant == 0 else [])      # Result as IntoIterator: the Ok value, or nothing
     if t is Agg and v.ty in ('Range', 'std::ops::Range', 'core::ops::Range'):
         a, b = v.fields
         if is_sym(a) or is_sym(b):
